@@ -103,69 +103,6 @@ func (ev *evalEnv) int(e ast.Expr) (int64, bool) {
 	return 0, false
 }
 
-func (ev *evalEnv) bool(e ast.Expr) (bool, bool) {
-	e = unparen(e)
-	if tv, ok := ev.c.Info.Types[e]; ok && tv.Value != nil && tv.Value.Kind() == constant.Bool {
-		return constant.BoolVal(tv.Value), true
-	}
-	switch x := e.(type) {
-	case *ast.Ident:
-		if v, ok := ev.bools[ev.c.obj(x)]; ok {
-			return v, true
-		}
-	case *ast.UnaryExpr:
-		if x.Op == token.NOT {
-			if v, ok := ev.bool(x.X); ok {
-				return !v, true
-			}
-		}
-	case *ast.BinaryExpr:
-		switch x.Op {
-		case token.LAND, token.LOR:
-			a, ok1 := ev.bool(x.X)
-			if !ok1 {
-				return false, false
-			}
-			// Go short-circuit: the right operand need not be evaluable when it is not evaluated
-			if x.Op == token.LAND && !a {
-				return false, true
-			}
-			if x.Op == token.LOR && a {
-				return true, true
-			}
-			b, ok2 := ev.bool(x.Y)
-			if !ok2 {
-				return false, false
-			}
-			return b, true
-		case token.EQL, token.NEQ, token.LSS, token.LEQ, token.GTR, token.GEQ:
-			a, ok1 := ev.int(x.X)
-			b, ok2 := ev.int(x.Y)
-			if ok1 && ok2 {
-				switch x.Op {
-				case token.EQL:
-					return a == b, true
-				case token.NEQ:
-					return a != b, true
-				case token.LSS:
-					return a < b, true
-				case token.LEQ:
-					return a <= b, true
-				case token.GTR:
-					return a > b, true
-				case token.GEQ:
-					return a >= b, true
-				}
-			}
-			return false, false
-		}
-	}
-	if ev.fail == "" {
-		ev.fail = "boolean expression outside the vocabulary: " + exprStr(e)
-	}
-	return false, false
-}
-
 // intConstantsIn collects the integer constants mentioned in an expression (for break-point sets).
 func (c *Ctx) intConstantsIn(e ast.Expr) []int64 {
 	var out []int64
@@ -180,28 +117,6 @@ func (c *Ctx) intConstantsIn(e ast.Expr) []int64 {
 		}
 		return true
 	})
-	return out
-}
-
-// breakpoints: candidate values of one integer variable: a small window, the neighbourhood of every constant, and far values.
-func breakpoints(consts []int64, extra ...int64) []int64 {
-	set := map[int64]bool{}
-	for v := int64(-3); v <= 14; v++ {
-		set[v] = true
-	}
-	for _, k := range append(consts, extra...) {
-		for d := int64(-2); d <= 2; d++ {
-			set[k+d] = true
-		}
-	}
-	for _, v := range []int64{-1 << 40, -1000, 1000, 1 << 40} {
-		set[v] = true
-	}
-	var out []int64
-	for v := range set {
-		out = append(out, v)
-	}
-	sortInt64(out)
 	return out
 }
 
